@@ -36,6 +36,22 @@ def programs(tier, seed):
     for e in es[:len(es):9 if tier != 'thorough' else 2]:
         t = M.pr(e)
         out.append('<view a="{{ %s }}">x{{ %s }}y</view>' % (esc(t), esc(t)))
+    # parenthesisation on re-print: every binary operator nested in every binary operator, on either side (and in ?:)
+    x_, y_, z_ = ('id', 'a'), ('id', 'b'), ('id', 'c')
+    pairs = []
+    for o1 in M.BIN_OPS:
+        for o2 in M.BIN_OPS:
+            pairs.append(('bin', o1, x_, ('bin', o2, y_, z_)))
+            pairs.append(('bin', o1, ('bin', o2, x_, y_), z_))
+    for o in M.BIN_OPS:
+        pairs += [('cond', ('bin', o, x_, y_), y_, z_), ('cond', x_, ('bin', o, y_, z_), z_), ('cond', x_, y_, ('cond', z_, x_, y_)), ('un', '!', ('bin', o, x_, y_)),
+                  ('bin', o, ('cond', x_, y_, z_), z_), ('bin', o, x_, ('cond', x_, y_, z_))]
+    seenp = set()
+    for k in range(0, len(pairs), 4):
+        chunk = [p for p in pairs[k:k + 4] if M.pr(p) not in seenp]
+        seenp.update(M.pr(p) for p in chunk)
+        if chunk:
+            out.append('<view %s/>' % ' '.join('p%d="{{ %s }}"' % (i, esc(M.pr(p))) for i, p in enumerate(chunk)))
     # mixed text: every expression form as the first / a later part of an attribute value and of a text node
     a_, b_, c_, y_ = ('id', 'a'), ('id', 'b'), ('id', 'c'), ('id', 'y')
     lit = M.L('str', "'s'", 's')
